@@ -3,8 +3,11 @@
 P=$1; D=$2; T=${3:-quick}
 cd /verif
 git -C /repo apply "$D" || { echo "APPLY-FAILED $D"; exit 9; }
+# evidence files are only ever committed from runs on the unchanged tree: keep the current one aside
+cp evidence/$P.json /tmp/evidence_$P.keep 2>/dev/null
 ./check $P --tier $T > /tmp/seed_$P.out 2>&1; RC=$?
 git -C /repo checkout -- .
+cp /tmp/evidence_$P.keep evidence/$P.json 2>/dev/null
 echo "== $P $(basename $(dirname $D))/$(basename $D) exit=$RC"
 grep -E "^(VIOLATION|KNOWN-FINDING|INCONCLUSIVE|UNCONFIRMED|ENCODER)" /tmp/seed_$P.out | cut -c1-260 | head -4
 exit $RC
